@@ -23,6 +23,7 @@ MACRO_DEFS = ['-DFLATCC_ALLOC=fi_malloc', '-DFLATCC_CALLOC=fi_calloc', '-DFLATCC
 
 
 def classify_crash(txt):
+    if 'HANG:' in txt: return 'hang-after-failure'
     if 'create_cached_vtable' in txt and 'use-after-free' in txt: return 'vtable-cache-uaf'
     if 'create_cached_vtable' in txt: return 'cached-vtable-minus-one'      # a descriptor left half initialised by the swallowed vb failure
     if 'json_printer_init_dynamic_buffer' in txt: return 'printer-init-null-arith'
@@ -132,7 +133,19 @@ def run(ctx):
     scen.append(('clone:refmap', ['rm:1', 'cln:%s' % buf_hex], False))
     scen.append(('clone:plain', ['cln:%s' % buf_hex], False))
     scen.append(('print:dynamic', ['pj:%s:128' % buf_hex], False))
-    scen.append(('refmap:grow', ['rm:1', 'sb:0:0:0', 'ri:2000'], False))
+    scen.append(('refmap:grow', ['rm:1', 'sb:0:0:0', 'ri:2000:40'], False))
+    for nrefs in (6, 9, 30):
+        scen.append(('refmap:insert%d' % nrefs, ['rm:1', 'ri:%d:50' % nrefs], False))
+    # clone with many shared references (each cloned table / vector is memoised): the refmap must grow several times
+    rc, fbm, err = H.run(['cfg:0:0 jp:%s:0 fin' % hx(('{"kids":[' + ','.join('{"n":%d,"name":"k%d"}' % (i, i) for i in range(14)) + '],"strs":["a","b","c"]}').encode())])
+    buf_many = fbm[0].split()[-1] if fbm else '-'
+    scen.append(('clone:refmap_many', ['rm:1', 'cln:%s' % buf_many], False))
+    # strings whose escape sequence sits at a data stack growth boundary (255 / 511 bytes of literal prefix, +- a few)
+    for base in (255, 511):
+        for d_ in (range(-5, 6) if ctx.thorough else (-1, 0, 1)):
+            for esc in ('\\n', '\\u00e9'):
+                doc = '{"name":"%s%srest of the string"}' % ('p' * (base + d_), esc)
+                scen.append(('json:escape_at_%d%+d%s' % (base, d_, 'u' if 'u' in esc else 'n'), ['jp:%s:0' % hx(doc.encode())], False))
 
     def rebuild_of(ops):
         """what is built after the reset: the scenario itself when it is a complete build (its frames then cover the data stack
@@ -298,10 +311,10 @@ def run(ctx):
         # which op failed and with what value
         if state != 'tripped':
             # the failure was consumed (k < number of requests of the unarmed run) but no call reported it
-            benign = name.startswith('clone') or name.startswith('refmap')     # a refmap that cannot grow only loses sharing (documented: insert returns not_found)
-            if not benign or mech != 'macro':
+            if True:     # also the refmap: a failed growth makes flatcc_refmap_insert return flatcc_refmap_not_found, which the clone passes on
                 nsw += 1
-                if name.startswith('clone'): key = 'generated-call-continues-after-failure'
+                if name.startswith('refmap') or (name.startswith('clone') and mech == 'macro'): key = 'refmap-growth-failure-swallowed'
+                elif name.startswith('clone'): key = 'generated-call-continues-after-failure'
                 elif ('et' in [x.split(':')[0] for x in toks]) and mech != 'emit-callback': key = 'cached-vtable-minus-one'
                 else: key = 'failure-swallowed:' + name.split(':')[0]
                 ctx.violation(key, 'scenario %s: the %s was not reported by any call of the build (all calls returned success)' % (name, tag),
